@@ -49,6 +49,7 @@ type ogmHist struct {
 	tmo    int
 	lastGC int
 	gen    int
+	since  int // fires recorded since the last set-up / rebuild
 }
 
 func partsStr(st open_game_manager.OpenGameState) string {
@@ -72,11 +73,13 @@ func (h *ogmHist) newManager(fromState *open_game_manager.OpenGameState) {
 	h.mu.Lock()
 	h.gen++
 	gen := h.gen
+	h.since = 0
 	h.mu.Unlock()
 	cb := func(state open_game_manager.OpenGameState) {
 		h.mu.Lock()
 		if gen == h.gen { // a manager object that was replaced by fromstate is out of the picture
 			h.fires = append(h.fires, ogmFire{state.GameCount, partsStr(state)})
+			h.since++
 		}
 		h.mu.Unlock()
 	}
@@ -91,6 +94,22 @@ func (h *ogmHist) line(format string, a ...interface{}) { fmt.Fprintf(h.w, forma
 
 func (h *ogmHist) obs() {
 	time.Sleep(2500 * time.Microsecond) // quiescent regime: let the group's goroutines drain
+	// everybody of the current set-up shows ready but its completion has not been seen yet: it is on its way (the callback
+	// runs in a goroutine of its own); on a loaded machine that takes longer than the pause above
+	if cur := h.m.GetState(); len(cur.Participants) > 0 {
+		all := true
+		for _, p := range cur.Participants {
+			all = all && p.IsReady
+		}
+		if all {
+			waitFor(250*time.Millisecond, func() bool {
+				h.mu.Lock()
+				defer h.mu.Unlock()
+				return h.since > 0
+			})
+			schedBarrier(2)
+		}
+	}
 	h.mu.Lock()
 	fs := h.fires
 	h.fires = nil
@@ -147,6 +166,9 @@ func genOGMHistory(r *rand.Rand, st *ogmStats, hid int, allowTimeout bool) strin
 				ps = append(ps, fmt.Sprintf("%d:%d", id, idx))
 				current = append(current, id)
 			}
+			h.mu.Lock()
+			h.since = 0
+			h.mu.Unlock()
 			h.m.Setup(gc, parts)
 			p := "-"
 			if len(ps) > 0 {
